@@ -421,6 +421,12 @@ MAINLOOP:
 
 func (ws *WatchingSource) updateDirWatches(oldResolvedCfgDir, resolvedCfgDir string) {
 	if oldResolvedCfgDir == resolvedCfgDir {
+		// Adding an existing watch is a no-op; but if the directory was removed
+		// and re-created under the same path its watch died with the old inode.
+		if addErr := ws.watcher.Add(resolvedCfgDir); addErr != nil {
+			ws.logger.Printf("failed to refresh watch for symlink-resolved directory: %q: %s",
+				resolvedCfgDir, addErr)
+		}
 		return
 	}
 	// If the config's resolved directory has changed, make sure we
